@@ -304,6 +304,13 @@ func opRemoveTips(h *hist) *Event {
 	if h.r.Float64() < 0.2 {
 		names = append(names, "zz_absent")
 	}
+	if h.r.Float64() < 0.15 {
+		// a list padded with names the tree does not have, as long as the tree has tips or longer (a keep-list taken from
+		// a larger data set)
+		for i := 0; len(names) < len(all)+h.r.Intn(3); i++ {
+			names = append(names, fmt.Sprintf("zz_absent%d", i))
+		}
+	}
 	sort.Strings(names)
 	ev := &Event{Op: "RemoveTips", Args: map[string]interface{}{"names": names, "revert": revert}}
 	guard(ev, func() error { return h.t.RemoveTips(revert, names...) })
